@@ -19,6 +19,16 @@ with the scanner's tokens and the re-evaluated value, validated by TLC
 against Val_Trace; decimals and ints of all magnitudes are driven from Python
 (shape by the real scanner: one decimal / int token, optional minus; exact
 round trip of the bits).
+
+Round 3: (a) the paths by which a PROGRAM obtains the text (ValLaws!RenderVia: string(v), '' + v, s('{v}'), join,
+print / println, element of a list) are observed beside str(value) for every value the check renders - universe,
+magnitudes, numbers made by natives, random values, object histories; (b) spec/ValText.tla "pat": pattern payloads
+grown over an alphabet around the delimiter - which payloads the syntax can express, that exactly those round-trip;
+(c) spec/ValText.tla "hist": an outer container and an inner object it holds by reference are driven through every
+mutator of the language (methods of the value classes and the direct writes of index / compound assignment), on
+both objects; a tour through all transitions on one pair of implementation objects, rendered / ordered / hashed
+after every step and compared with a freshly evaluated literal; (d) the symptom of each known finding is pinned
+(KNOWN_SYMPTOMS); (e) ints beyond the number of digits the host converts in one piece.
 """
 import hashlib
 import json
@@ -380,6 +390,8 @@ def check_patterns(cx, res):
     rows = {}
     for r in res.records("PAT"):
         rows.setdefault(M.text(r["p"]), r)
+    if not rows:
+        raise MachineryError("ValText exported no pattern payloads")
     stats = {"payloads": len(rows), "values": 0, "writable": 0, "unwritable_fail_as_modelled": 0}
     for p in sorted(rows):
         r = rows[p]
@@ -572,8 +584,8 @@ def check_histories(cx, res, limit=None):
                                           f"{hist_literal(pre['o'])}, hn = {M.literal(pre['n'])} (rendered, ordered and "
                                           f"hashed before) the object holds the value {lit}, whose text is {want!r}, "
                                           f"but {how} gives {t[1]!r}: the text depends on the history",
-                       {"kind": "history", "pre": pre, "edge": {k: e[k] for k in ("who", "op", "i", "x", "y", "src")}
-                        if e else None})
+                       {"kind": "history", "root": pre if e else post,
+                        "edge": {k: e[k] for k in ("who", "op", "i", "x", "y", "pre", "post", "val")} if e else None})
                 break
         im.run("c08_touch(ho, hn, hq)")
         cx.n_eval += 1
@@ -1176,7 +1188,9 @@ def run(run):
     run.cov["evaluations"] = cx.n_eval + cx.im.n
     run.cov["distinct_nontrivial"] = total
     run.cov["rule"] = ("binding A: one case per value of the ValLaws universe (each built in up to 8 insertion "
-                       "orders, by constructors and by literals); fixed adversarial values; one per decimal / int "
+                       "orders, by constructors and by literals), one per (value, observer) of ValLaws!RenderVia, one "
+                       "per pattern payload of ValText that is a pattern value, one per transition of ValText's "
+                       "history machine (all covered by the tour); fixed adversarial values; one per decimal / int "
                        "magnitude; binding B: one per random data value whose record Val_Trace accepted")
     run.cov["exhaustive"] = True
     run.cov["universe"] = n
@@ -1192,8 +1206,22 @@ def run(run):
         "the shape (one decimal token, optional minus) and the round trip, magnitudes 5e-324 .. 1.8e308 and +-0.0 "
         "are driven from Python and judged with the real scanner; inf and nan are out of scope (reachable only "
         "through overflow)",
-        "the random generator keeps NULL out of map keys and draws pattern payloads without `/`: those are covered "
-        "by the fixed cases",
+        "the random generator keeps NULL out of map keys (covered by the fixed cases) and draws only pattern payloads "
+        "the syntax can express (ValText!PatWritable: not empty, no `/` at an end, no `//` inside); the others are "
+        "the class of the known findings on patterns: ValText proves that the scanner ends their text early, the "
+        "harness counts that each fails as modelled (drift if one does not) and five of them are fixed cases",
+        "a pattern value exists only for a payload the host accepts as a regular expression: other grown payloads "
+        "are skipped",
+        "the conversion of a string (itself), NULL ('') and a pattern (its payload) is documented to differ from "
+        "the text form: for these kinds the paths string(v), '' + v, s(), join, print are compared with "
+        "ValLaws!RenderVia as drift only; for booleans, ints, decimals, dates, lists, sets and maps every path must "
+        "give the text of str(value)",
+        "object histories: the element pools hold no two equal representatives (1 / 1.0: the known finding on equal "
+        "representatives), the inner object is held at list positions and as a map value only (an element of a set "
+        "or a key that is changed afterwards is C06's subject); a step after which the object does not hold the "
+        "model's value is drift (what a mutator does is C06 / C16's subject) and the tour starts afresh there",
+        "a failure under the key of a known finding is accepted only with the text and the rejected clauses it was "
+        "recorded with (KNOWN_SYMPTOMS); any other symptom is reported under '<key> [other symptom]'",
         "decimals >= 10^8 whose exact digits differ from the host's shortest digits (more than 16 significant "
         "digits) are not sent to the model; they go through the Python-driven magnitude check",
         "dates are not data values: only (i) and (ii) are compared for them",
@@ -1201,6 +1229,16 @@ def run(run):
         "fraction, and the round trip of the text; a result whose kind or value differs from ValLaws!Make is drift "
         "(what a native computes is not C08's subject)",
     ]
+
+
+class Recorded:
+    """records of a TLC run that were stored in a replay case"""
+
+    def __init__(self, recs):
+        self.recs = recs
+
+    def records(self, tag):
+        return [json.loads(json.dumps(r)) for r in self.recs.get(tag, [])]
 
 
 def replay(run, case):
@@ -1231,6 +1269,17 @@ def replay(run, case):
     elif k == "prog":
         check_date_difference(cx)
         check_identifier_keys(cx)
+    elif k == "paths":
+        a = case["v"]
+        check_text_paths(cx, M.build(a, cx.im.refs), lit_key(a), lit_key(a), case)
+    elif k == "pattern":
+        p = case["p"]
+        check_patterns(cx, Recorded({"PAT": [{"p": M.cps(p), "txt": M.cps("//" + p + "//"), "w": pat_writable(p),
+                                              "used": 0, "payload": []}]}))
+    elif k == "history":
+        # the object graph is built afresh in the state before the step, rendered / ordered / hashed, then stepped
+        e = case["edge"]
+        check_histories(cx, Recorded({"ROOT": [case["root"]], "EDGE": [e] if e else []}))
     elif k == "maker":
         o = cx.im.run(case["src"])
         if o[0] == "val":
